@@ -1,17 +1,17 @@
 (* Model of the generated protocol receiver / transmitter (kojen/protocol_templates/CPP/TEMPLATEReceiver.cpp,
    TEMPLATETransmitter.cpp after expansion for an interface) and of the loop-back composition with Model/Conn.v.
 
-     void <C>Receiver::OnMessageReceived(const uint8* data_buffer, const uint32& number_of_bytes) {
-         const sMsgHeader* header = (sMsgHeader*)(&data_buffer[0]);
-         switch(header->TypeID) {
-         case <id_i>: On<Msg_i>Received(reinterpret_cast<const <Msg_i>*>(&data_buffer[0])); break;      (one per message)
-         default: if(unhandledReceiver != nullptr) unhandledReceiver->OnNotHandledMessageReceived(data_buffer,number_of_bytes); break; } }
+     <C>Receiver::OnMessageReceived(data_buffer, number_of_bytes):
+         header = data_buffer reinterpreted as sMsgHeader;
+         switch (header->TypeID) {
+         case <id_i>: On<Msg_i>Received(data_buffer reinterpreted as const <Msg_i> pointer); break;      (one per message)
+         default: if (unhandledReceiver != nullptr) unhandledReceiver->OnNotHandledMessageReceived(data_buffer, number_of_bytes); break; }
 
-     bool <C>Transmitter::Transmit<Msg>(const <Msg>& data, int8 retries) const {
+     bool <C>Transmitter::Transmit<Msg>(const <Msg>& data, int8 retries) const:
          bool ok = false;
-         for (; retries >= 0 && !ok && (connection != nullptr); retries--) {
-             ok = ok || connection->SendData(reinterpret_cast<const uint8*>(&data), sizeof(<Msg>)); }
-         return ok; }
+         for (; retries >= 0 && !ok && (connection != nullptr); retries--)
+             ok = ok || connection->SendData(address of data as bytes, sizeof(<Msg>));
+         return ok;
    No proofs here (Proofs/ProtoProofs.v). *)
 From Coq Require Import String Ascii List Bool Arith NArith ZArith.
 From KV Require Import Lib.Str Lib.ByteSeq Gen.CxxConn Gen.ProtoTmpl Model.Conn.
